@@ -184,8 +184,18 @@ Section LexNC.
   Hint Resolve nocr_parse_real_literal : nocr_db.
   Lemma nocr_abs_real : forall st0 pai ini, RInv st0 -> nocr (abs_real d F st0 pai ini).
   Proof. intros. unfold abs_real, abs_real_gen. nocr_tac. Qed.
-  Lemma nocr_abs_based : forall p0 p1 ini, nocr (abs_based d F p0 p1 ini).
+  Lemma nocr_abs_based : forall dl p0 p1 ini, nocr (abs_based d F dl p0 p1 ini).
   Proof. intros. unfold abs_based. nocr_tac. Qed.
+  Lemma nocr_colon_lookahead : nocr (colon_lookahead d).
+  Proof. unfold colon_lookahead. nocr_tac. Qed.
+  Lemma nocr_colon_starts_based_literal : nocr (colon_starts_based_literal d).
+  Proof.
+    intros st r st' HI H. unfold colon_starts_based_literal in H.
+    destruct (colon_lookahead d st) as [[[[n|]|e]|e|a] st1] eqn:E;
+      destruct (nocr_colon_lookahead _ _ _ HI E) as [N1 _]; injection H as <- <-;
+      (split; [|exact HI]); try discriminate.
+    intro E2. apply N1. congruence.
+  Qed.
   Lemma nocr_abs_plain : forall ini, nocr (abs_plain ini).
   Proof. intros. unfold abs_plain. nocr_tac. Qed.
   Lemma nocr_char_lookahead : nocr (char_lookahead d).
@@ -436,7 +446,7 @@ End BitString.
   nocr_parse_integer nocr_parse_exponent nocr_quoted_loop nocr_quoted_recover nocr_parse_quoted nocr_take_to_nl
   nocr_parse_comment nocr_ml_loop nocr_parse_ml_comment nocr_skip_ws nocr_leading_comments nocr_trailing_comment
   nocr_bs_second nocr_parse_base_specifier nocr_maybe_base_specifier nocr_ident_loop
-  nocr_parse_basic_identifier_or_keyword nocr_real_loop nocr_parse_real_literal nocr_abs_real nocr_abs_based
+  nocr_parse_basic_identifier_or_keyword nocr_real_loop nocr_parse_real_literal nocr_abs_real nocr_abs_based nocr_colon_starts_based_literal
   nocr_abs_plain nocr_char_lookahead nocr_parse_character_literal nocr_until_nl : nocr_db.
 
 Section TokenNC.
@@ -520,6 +530,11 @@ Section TokenNC.
           assert (st3 = st1) by (apply peek_inv in P; tauto). subst st3.
           eapply abs_int_exp_nocr; [exact I1|exact P|exact H].
         * destruct (c =? 35); [eapply nocr_abs_based; eassumption|].
+          destruct (c =? 58).
+          { assert (Hc : nocr (b <- colon_starts_based_literal d ;;
+                                 if b then abs_based d F 58 (r_pos st) (r_pos st1) ini else abs_plain ini)%m)
+              by nocr_tac.
+            eapply Hc; [exact I1|exact H]. }
           destruct (is_bs_letter c); [|eapply nocr_abs_plain; eassumption].
           eapply abs_bit_string_nocr; [exact HI|exact I1|exact Hl|exact H].
       + injection H as <- <-. split; [discriminate|exact I1].
